@@ -41,6 +41,19 @@ func (cw *CodeWriter) WriteRune(r rune) {
 	}
 }
 
+// separateSigns writes a space when the sign operator about to be written directly
+// follows the same sign character, so that `a - -b`, `a + ++b` or `- --x` are not
+// fused into a different token sequence (`a--b`, `a+++b`, `---x`).
+func (cw *CodeWriter) separateSigns(operator string) {
+	if operator == "" || (operator[0] != '+' && operator[0] != '-') {
+		return
+	}
+	cw.flushPending()
+	if code := cw.Builder.String(); len(code) > 0 && code[len(code)-1] == operator[0] {
+		cw.WriteRune(' ')
+	}
+}
+
 // WriteSemi writes a semicolon if WriteSemicolons is true.
 func (cw *CodeWriter) WriteSemi() {
 	if !cw.PrettyPrint {
